@@ -62,6 +62,7 @@ class C12(Scenario):
             case["ops"] = fm.gen_ops(rng, m, rng.randrange(0, 6), paced=False, allow={"mkfile", "write", "mkdir", "unlink", "rename", "rmdir"})
             case["close_after"] = rng.choice([0, 0, 0, 1, 2, 3, 5, 8, 13, 30])
             case["consumer"] = rng.random() < 0.6
+            case["rmroot"] = rng.random() < 0.2  # the watched root is deleted while the reader runs, then close()/stop()
             if rng.random() < 0.4:
                 case["faults"]["short_read"] = [rng.choice([32, 64, 0])]
         elif mode == "construct":
@@ -111,6 +112,10 @@ class C12(Scenario):
                     scheduled.clear()
                 else:
                     ops.append(["touch", rng.choice(m.dirs_in("root"))])
+            if rng.random() < 0.3:
+                # the watched root disappears while the observer runs, is re-created and watched again
+                pos = rng.randrange(len(ops) + 1)
+                ops[pos:pos] = [["rmroot"], ["mkroot"]] + ([["schedule", "root", True]] if rng.random() < 0.7 else [])
             case["cycle_ops"] = ops
         return case
 
@@ -224,6 +229,8 @@ class C12(Scenario):
         def fsactor():
             for op in case["ops"]:
                 run.exec_op(op)
+            if case.get("rmroot"):
+                run.exec_op(["rmroot"])
 
         fa = sim.spawn(fsactor, "fsactor", "actor")
         for _ in range(case["close_after"]):
@@ -311,6 +318,7 @@ class C12(Scenario):
         started = False
         n_emitters = 0
         watches = {}
+        loose = [False]
         for op in case["cycle_ops"]:
             k = op[0]
             try:
@@ -337,9 +345,21 @@ class C12(Scenario):
                     watches.clear()
                 elif k == "touch":
                     sim.yield_point("op")
-                    with open(run.real(op[1] + "/t"), "w"):
-                        pass
-                    os.unlink(run.real(op[1] + "/t"))
+                    if os.path.isdir(run.real(op[1])):
+                        with open(run.real(op[1] + "/t"), "w"):
+                            pass
+                        os.unlink(run.real(op[1] + "/t"))
+                elif k == "rmroot":
+                    import shutil
+
+                    sim.yield_point("op")
+                    shutil.rmtree(run.real("root"))
+                    sim.wait_quiescent()
+                    loose[0] = True  # emitters of deleted roots end by themselves: only the final state is judged from here on
+                elif k == "mkroot":
+                    sim.yield_point("op")
+                    for d in sorted(p for p, (kind, _) in run.model.t.items() if kind == "d" and fm.is_under(p, "root")):
+                        os.makedirs(run.real(d), exist_ok=True)
             except OSError as e:
                 sim.rec("raised", k, e.errno)
                 if k == "start":
@@ -350,7 +370,7 @@ class C12(Scenario):
             running = len(watches) if started else 0
             fds = run.kshim.open_fds()
             helpers = [n for n in lib_alive(sim) if not n.startswith("BaseObserver")]
-            if len(fds) != 3 * running or len(helpers) != 2 * running:
+            if not loose[0] and (len(fds) != 3 * running or len(helpers) != 2 * running):
                 res["checks"].append({"what": f"cycle-invariant-after-{k}", "open_fds": fds, "alive": helpers, "expected_running_emitters": running})
                 break
         obs.stop()
